@@ -17,6 +17,10 @@ enum Val {
     Arr(Vec<Val>), // [u64; 4]
     Tup(Vec<Val>),
     Ref(String),   // &mut / & of an environment entry (aliasing)
+    ElemRef(String, usize), // `for x in arr.iter_mut()`: a reference to one element
+    W32(String),   // a 32-bit word: Lean term of type BitVec 32
+    SN(String),    // a u64 parameter used as a count / size: Lean variable of type Nat (its word is `BitVec.ofNat 64 n`)
+    SE(String),    // a u64 value computed from such a parameter: Lean term of type Nat (already reduced mod 2^64)
     Unit,
 }
 
@@ -48,7 +52,12 @@ impl<'a> Ex<'a> {
         match v {
             Val::W(s) => Ok(s.clone()),
             Val::N(n) => Ok(format!("({:#x}#64)", n)),
+            Val::SN(n) => Ok(format!("(BitVec.ofNat 64 {n})")),
             Val::Ref(k) => self.word(self.env.get(k).ok_or("dangling ref")?),
+            Val::ElemRef(k, i) => match self.env.get(k) {
+                Some(Val::Arr(a)) if *i < a.len() => self.word(&a[*i]),
+                _ => Err("dangling element ref".into()),
+            },
             other => Err(format!("expected a word, got {:?}", other)),
         }
     }
@@ -81,6 +90,7 @@ impl<'a> Ex<'a> {
                 let id = p.path.get_ident().ok_or("path place")?.to_string();
                 match self.env.get(&id) {
                     Some(Val::Ref(k)) => Ok((k.clone(), None)),
+                    Some(Val::ElemRef(k, i)) => Ok((k.clone(), Some(*i))),
                     Some(_) => Ok((id, None)),
                     None => Err(format!("unknown variable {id}")),
                 }
@@ -118,6 +128,26 @@ impl<'a> Ex<'a> {
                 BinOp::BitXor(_) => a ^ b,
                 _ => return Err("literal op".into()),
             }));
+        }
+        // 32-bit halves and symbolic counts (release semantics: shift counts are masked to the width, `-` on u64 wraps)
+        match (&l, &r, op) {
+            (Val::N(a), Val::SN(c), BinOp::Sub(_)) => return Ok(Val::SE(format!("((2^64 + {a} - {c}) % 2^64)"))),
+            (Val::W32(x), Val::SN(c), BinOp::Shl(_)) => return Ok(Val::W32(format!("({x} <<< ({c} % 32))"))),
+            (Val::W32(x), Val::SN(c), BinOp::Shr(_)) => return Ok(Val::W32(format!("({x} >>> ({c} % 32))"))),
+            (Val::W32(x), Val::SE(c), BinOp::Shl(_)) => return Ok(Val::W32(format!("({x} <<< ({c} % 32))"))),
+            (Val::W32(x), Val::SE(c), BinOp::Shr(_)) => return Ok(Val::W32(format!("({x} >>> ({c} % 32))"))),
+            (Val::W32(x), Val::W32(y), BinOp::BitOr(_)) => return Ok(Val::W32(format!("({x} ||| {y})"))),
+            (Val::W32(x), Val::W32(y), BinOp::BitAnd(_)) => return Ok(Val::W32(format!("({x} &&& {y})"))),
+            (Val::W32(x), Val::W32(y), BinOp::BitXor(_)) => return Ok(Val::W32(format!("({x} ^^^ {y})"))),
+            (Val::W32(_), _, _) | (_, Val::W32(_), _) => return Err("unsupported 32-bit operation".into()),
+            (Val::SN(c), Val::N(k), BinOp::Shl(_)) if *k < 64 => return Ok(self.bind(format!("((BitVec.ofNat 64 {c}) <<< {k})"))),
+            // plain `+` on u64 where one side derives from the size parameter: release semantics (wrapping); the
+            // overflow check of the debug profile is the business of HH/PortablePanic.lean
+            (_, Val::SN(_), BinOp::Add(_)) | (Val::SN(_), _, BinOp::Add(_)) => {
+                let (a, b) = (self.word(&l)?, self.word(&r)?);
+                return Ok(self.bind(format!("({a} + {b})")));
+            }
+            _ => {}
         }
         let lw = self.word(&l)?;
         let e = match op {
@@ -210,6 +240,10 @@ impl<'a> Ex<'a> {
                     let v = self.eval(&u.expr)?;
                     match v {
                         Val::Ref(k) => self.env.get(&k).cloned().ok_or("dangling".into()),
+                        Val::ElemRef(k, i) => match self.env.get(&k) {
+                            Some(Val::Arr(a)) if i < a.len() => Ok(a[i].clone()),
+                            _ => Err("dangling element".into()),
+                        },
                         o => Ok(o),
                     }
                 }
@@ -277,7 +311,34 @@ impl<'a> Ex<'a> {
                     _ => Err(format!("method {name}")),
                 }
             }
+            Expr::Cast(c) => {
+                let v = self.eval(&c.expr)?;
+                let ty = { let t = &c.ty; quote::quote!(#t).to_string() };
+                let _ = &ty;
+                match ty.as_str() {
+                    "u32" => {
+                        let w = self.word(&v)?;
+                        Ok(Val::W32(format!("(BitVec.setWidth 32 {w})")))
+                    }
+                    "u64" => match v {
+                        Val::W32(x) => Ok(self.bind(format!("(BitVec.setWidth 64 {x})"))),
+                        o => Ok(o),
+                    },
+                    _ => Err(format!("cast to {ty}")),
+                }
+            }
             Expr::Call(c) => {
+                // `u64::from(x)` of a 32-bit half
+                if let Expr::Path(p) = &*c.func {
+                    let segs: Vec<String> = p.path.segments.iter().map(|s| s.ident.to_string()).collect();
+                    if segs == ["u64", "from"] && c.args.len() == 1 {
+                        let v = self.eval(&c.args[0])?;
+                        return match v {
+                            Val::W32(x) => Ok(self.bind(format!("(BitVec.setWidth 64 {x})"))),
+                            o => Ok(o),
+                        };
+                    }
+                }
                 let fname = match &*c.func {
                     Expr::Path(p) => p.path.segments.last().map(|s| s.ident.to_string()).ok_or("call path")?,
                     _ => return Err("call of non-path".into()),
@@ -317,6 +378,23 @@ impl<'a> Ex<'a> {
                         self.block(&f.body)?;
                     }
                     return Ok(Val::Unit);
+                }
+                if let (Pat::Ident(pi), Expr::MethodCall(im)) = (&*f.pat, &*f.expr) {
+                    if im.method == "iter_mut" {
+                        let (k, idx) = self.place_key(&im.receiver)?;
+                        if idx.is_some() {
+                            return Err("iter_mut of an element".into());
+                        }
+                        let n = match self.env.get(&k) {
+                            Some(Val::Arr(a)) => a.len(),
+                            _ => return Err("iter_mut over non-array".into()),
+                        };
+                        for i in 0..n {
+                            self.env.insert(pi.ident.to_string(), Val::ElemRef(k.clone(), i));
+                            self.block(&f.body)?;
+                        }
+                        return Ok(Val::Unit);
+                    }
                 }
                 if let (Pat::Tuple(pt), Expr::MethodCall(en)) = (&*f.pat, &*f.expr) {
                     if en.method == "enumerate" {
@@ -533,6 +611,19 @@ fn main() {
         ex.block(&f.block)?;
         let d = format!("def update (s : St) (lanes : V4) : St :=\n{}  {}\n", ex.lets_text(), st_text(&ex)?);
         let t = "theorem update_eq (s : St) (lanes : V4) : update s lanes = P.update s lanes := rfl\n".to_string();
+        Ok((d, t))
+    })());
+
+    // update_lanes (length injection + rotate_32_by, symbolic size)
+    emit("update_lanes", (|| {
+        let f = fns.get("update_lanes").ok_or("missing")?;
+        let mut ex = Ex::new(&fns);
+        self_env(&mut ex);
+        let p = f.sig.inputs.iter().find_map(|a| match a { syn::FnArg::Typed(t) => match &*t.pat { Pat::Ident(i) => Some(i.ident.to_string()), _ => None }, _ => None }).ok_or("param")?;
+        ex.env.insert(p, Val::SN("size".into()));
+        ex.block(&f.block)?;
+        let d = format!("def updateLanes (s : St) (size : Nat) : St :=\n{}  {}\n", ex.lets_text(), st_text(&ex)?);
+        let t = "theorem updateLanes_eq (s : St) (size : Nat) : updateLanes s size = P.updateLanes s size := rfl\n".to_string();
         Ok((d, t))
     })());
 
